@@ -323,9 +323,10 @@ theorem dictNdl_step_delta (p : DupPolicy) (α : String → R) (β₁ β₂ lam 
     from `w` for the cues of `e'`.  Hypotheses as in `ndlModel_continue_eq_spec`
     plus duplicate-free labels. -/
 theorem ndlModel_step_delta (magic version : Nat) (hm : magic < 4294967296) (hv : version < 4294967296)
-    (cfg : NdlCfg) (hper : 2 ≤ cfg.perFile) (hjob : 1 ≤ cfg.perJob) (alpha β₁ β₂ lam : R)
+    (cfg : NdlCfg) (alpha β₁ β₂ lam : R)
     (w : LW R) (hno : w.outcomes.Nodup) (hnc : w.cues.Nodup)
-    (e e' : Event String String) (hp : applyPolicy cfg.policy e = some e')
+    (e e' : Event String String) (hcfg : CfgOK cfg (mergedOutcomes w [e]).length)
+    (hp : applyPolicy cfg.policy e = some e')
     (hfit : Fits32With w [e]) (hin : ∀ c ∈ e'.cues, c ∈ w.cues) :
     ∃ r col, ndlModel magic version cfg alpha β₁ β₂ lam (some w) [e] = .ok (r, 1) ∧
       activationMatrix .keep false w [e'.cues] = .ok [col] ∧
@@ -335,8 +336,8 @@ theorem ndlModel_step_delta (magic version : Nat) (hm : magic < 4294967296) (hv 
               (if w.outcomes[i] ∈ e'.outcomes then β₁ * (lam - col.getD i 0)
                else β₂ * (0 - col.getD i 0))) := by
   have hpa : applyPolicyAll cfg.policy [e] = some [e'] := by simp [applyPolicyAll, hp]
-  obtain ⟨r, h1, h2⟩ := ndlModel_continue_eq_spec magic version hm hv cfg hper hjob alpha β₁ β₂ lam
-    w [e] [e'] hpa hfit
+  obtain ⟨r, h1, h2⟩ := ndlModel_continue_eq_spec magic version hm hv cfg alpha β₁ β₂ lam
+    w [e] [e'] hcfg hpa hfit
   have hacc : ∀ cues ∈ [e'.cues], actEventErr .keep false w.cues cues = none := by
     intro cues hc
     rw [List.mem_singleton] at hc
